@@ -23,7 +23,7 @@ SOURCE_FUNCS = [(SIG + "mesa_signal.py", "BaseObservable.__set__"), (SIG + "mesa
                 (SIG + "mesa_signal.py", "HasObservables"), (SIG + "mesa_signal.py", "descriptor_generator"),
                 (SIG + "mesa_signal.py", "All"), (SIG + "observable_collections.py", "*"), (SIG + "signals_util.py", "*")]
 ENUM_ALWAYS = False
-RULE = ("five streams per run.  (0) SCALE: 257 / 300 handlers (model-checked) and 513 ... 2049 handlers (implementation + oracle) subscribed to one (observable, signal type) list through every form (name / All x type / All), functions, lambdas, functools.partial objects, bound methods of distinct objects and 40 bound methods of one object, a share dying in between, unobserve / clear at that scale; an ObservableList of 300 (1030) items under every list operation with indices crossing 255 / 256 / 257; 8-16 observables on 6-12 objects.   (1) model histories: one HasObservables class with 2-4 Observable / ObservableList attributes, built as "
+RULE = ("six streams per run (the last one, USER CODE, implementation + oracle only: handlers that during delivery observe / unobserve / clear (themselves, earlier, later handlers, this or another key), assign this or another observable, drop the last reference to their own or another handler's owner with gc.collect(), raise any of nine exception types or issue a rejected observe - the caller catches - with dead references already in the list; owners with __slots__, value-based __eq__ / __hash__, a plain mixin after HasObservables; subclasses of Observable (docstring-only, extra constructor argument) and ObservableList; listeners that are all equal to each other; ordinary observe / unobserve between the rounds; judged: subscribers alive throughout a round get its signal exactly once unless a handler raised or re-entered that very list, the registry equals the ledger after the round except for lists re-entered while being delivered, and the plain signals that follow on every key are delivered exactly once each in subscription order).  The other   (0) SCALE: 257 / 300 handlers (model-checked) and 513 ... 2049 handlers (implementation + oracle) subscribed to one (observable, signal type) list through every form (name / All x type / All), functions, lambdas, functools.partial objects, bound methods of distinct objects and 40 bound methods of one object, a share dying in between, unobserve / clear at that scale; an ObservableList of 300 (1030) items under every list operation with indices crossing 255 / 256 / 257; 8-16 observables on 6-12 objects.   (1) model histories: one HasObservables class with 2-4 Observable / ObservableList attributes, built as "
         "Base/Sub (attributes inherited, overridden by the other kind or by / over a plain attribute), as a three-level chain, a diamond, or with "
         "plain mixins before / after HasObservables in the bases and HasObservables in the middle of a diamond; 1-2 instances; 2-5 handlers "
         "(functions and bound methods; bound methods of one listener die together); <= 30 operations: observe / unobserve / "
@@ -447,6 +447,7 @@ def gen_cases(rng, tier):
     cases = [_gen_reentrant(rng) for _ in range(40 if tier == "quick" else 400)]
     cases += [_gen_reentrant_assign(rng) for _ in range(40 if tier == "quick" else 400)]
     cases += [_gen_hx(rng) for _ in range(120 if tier == "quick" else 1500)]
+    cases += [_gen_uc(rng) for _ in range(200 if tier == "quick" else 2000)]
     cases = _scale_cases(rng, tier) + cases
     # the corner cases the quantifier names, always: All in either position on mixed classes, both declaration orders
     for order in (("obs", "list"), ("list", "obs")):
@@ -1081,6 +1082,317 @@ def _run_hx(case):
     return {"obs": obs, "failures": failures, "model": False}
 
 
+# ------------------------------------------------------------------ oracle-only stream: USER CODE inside the notification
+# handlers that re-enter the API, kill other handlers' owners (gc inside the handler), raise; user subclasses of HasObservables /
+# Observable / ObservableList; listeners with value-based __eq__.  What a handler does to the (name, type) list that is being
+# delivered at that very moment is outside the statement (see the re-entrant model streams): those keys are re-synchronised from
+# the implementation after the round; everything else is judged: handlers alive throughout receive the signal exactly once, the
+# registry equals the ledger after the round, and the plain signals that follow are delivered exactly once each, in order.
+UC_NAMES = ["x", "y", "l"]
+UC_KINDS = {"x": "obs", "y": "obs", "l": "list"}
+UC_EXC = ["ValueError", "RuntimeError", "StopIteration", "IndexError", "KeyError", "AttributeError", "TypeError", "GeneratorExit",
+          "ZeroDivisionError"]
+
+
+def _gen_uc(rng):
+    nh = rng.randint(4, 7)
+    hs = []
+    for h in range(1, nh + 1):
+        hs.append({"id": h, "kind": rng.choice(["m", "m", "f"]), "eq": rng.random() < 0.3})
+    subs = []
+    for h in range(1, nh + 1):
+        for _ in range(rng.randint(1, 2)):
+            nm = rng.choice(UC_NAMES + ["all"])
+            ty = rng.choice(["all", "change"] + (["append", "replace"] if nm in ("l",) else []))
+            subs.append([nm, ty, h])
+    rng.shuffle(subs)
+    rounds = []
+    for r in range(rng.randint(2, 4)):
+        acts = {}
+        for h in rng.sample(range(1, nh + 1), rng.randint(1, 2)):
+            k = rng.random()
+            other = rng.randint(1, nh)
+            if k < 0.22:
+                a = ["kill", rng.choice([h, other, other])]
+            elif k < 0.40:
+                a = ["raise", rng.choice(UC_EXC)]
+            elif k < 0.47:
+                a = ["bad_observe"]
+            elif k < 0.62:
+                a = ["observe", rng.choice(UC_NAMES + ["all"]), rng.choice(["all", "change"]), other]
+            elif k < 0.77:
+                a = ["unobserve", rng.choice(UC_NAMES + ["all"]), rng.choice(["all", "change"]), rng.choice([h, other])]
+            elif k < 0.84:
+                a = ["clear", rng.choice(UC_NAMES + ["all"])]
+            else:
+                a = ["assign", rng.choice(["x", "y"]), rng.randint(10, 19)]
+            acts[str(h)] = a
+        prekill = [rng.randint(1, nh)] if rng.random() < 0.5 else []        # a reference that is already dead when the round starts
+        op = rng.choice([["set", "x"], ["set", "y"], ["append"], ["setitem"], ["set", "x"]])
+        top = []
+        if rng.random() < 0.4:         # ordinary calls between the rounds (judged like any other history)
+            top.append([rng.choice(["observe", "unobserve", "unobserve"]), rng.choice(UC_NAMES + ["all"]), rng.choice(["all", "change"]),
+                        rng.randint(1, nh)])
+        rounds.append({"prekill": prekill, "top": top, "acts": acts, "op": op})
+    return {"uc": {"handlers": hs, "subs": subs, "owner": rng.choice(["plain", "slots", "eq", "mixin"])}, "ops": rounds}
+
+
+def _run_uc(case):
+    import gc
+
+    from mesa.experimental.mesa_signals import All, HasObservables, Observable, ObservableList
+
+    class MyObs(Observable):
+        """a docstring-only subclass"""
+
+    class ObsWithArg(Observable):
+        def __init__(self, label, fallback_value=None):
+            super().__init__(fallback_value=fallback_value)
+            self.label = label
+
+    class MyList(ObservableList):
+        pass
+
+    class Mixin:
+        z = Observable()
+
+    variant = case["uc"]["owner"]
+    ns = {"x": MyObs(), "y": ObsWithArg("why", fallback_value=0), "l": MyList()}
+    if variant == "slots":
+        ns["__slots__"] = ("extra",)
+    if variant == "eq":
+        ns["__eq__"] = lambda self, other: isinstance(other, type(self))
+        ns["__hash__"] = lambda self: 7
+
+    def __init__(self):
+        HasObservables.__init__(self)
+        self.x, self.y, self.l = 0, 0, [1, 2, 3]
+    ns["__init__"] = __init__
+    bases = (HasObservables, Mixin) if variant == "mixin" else (HasObservables,)
+    owner = type("Owner", bases, ns)()
+    emits = {"x": ["change"], "y": ["change"], "l": ["change", "replace", "remove", "insert", "append"]}
+    names = list(UC_NAMES) + (["z"] if variant == "mixin" else [])
+    if variant == "mixin":
+        emits["z"] = ["change"]
+    failures, obs = [], []
+    nfail = {}
+
+    def fail(key, opi, what):
+        nfail[key] = nfail.get(key, 0) + 1
+        if nfail[key] <= 3:
+            failures.append({"key": key, "op": opi, "what": what[:1500]})
+
+    calls = []            # (hid, name, type) in call order
+    delivering = []       # stack of (name, type) being delivered
+    did = []              # registry actions performed by handlers in this round: (kind, keys, during keys, hid)
+    holders, armed = {}, {}
+
+    class EqListener:
+        """listeners of this class are all equal to each other (value-based __eq__ / __hash__)"""
+
+        def __init__(self, hid):
+            self.hid = hid
+
+        def __eq__(self, other):
+            return isinstance(other, EqListener)
+
+        def __hash__(self):
+            return 11
+
+        def on(self, signal):
+            called(self.hid, signal)
+
+    class Listener:
+        def __init__(self, hid):
+            self.hid = hid
+
+        def on(self, signal):
+            called(self.hid, signal)
+
+    def get(hid):
+        o = holders.get(hid)
+        if o is None:
+            return None
+        return o.on if hasattr(o, "on") else o
+
+    def keys_of(nm, ty):
+        out = []
+        for n in (names if nm == "all" else [nm]):
+            for t in (emits[n] if ty == "all" else [ty]):
+                if t in emits[n]:
+                    out.append((n, t))
+        return out
+
+    def called(hid, signal):
+        key = (signal.name, signal.type)
+        calls.append((hid, key))
+        a = armed.pop(hid, None)
+        if a is None:
+            return
+        delivering.append(key)
+        try:
+            k = a[0]
+            if k == "kill":
+                holders.pop(a[1], None)
+                gc.collect()
+                did.append(("kill", a[1]))
+            elif k == "raise":
+                import builtins
+                raise getattr(builtins, a[1])("raised by the handler")
+            elif k == "bad_observe":
+                owner.observe("x", "no-such-signal-type", get(hid))       # rejected: the ValueError leaves the handler
+            elif k in ("observe", "unobserve"):
+                hd = get(a[3])
+                if hd is not None:
+                    getattr(owner, k)(All() if a[1] == "all" else a[1], All() if a[2] == "all" else a[2], hd)
+                    did.append((k, keys_of(a[1], a[2]), list(delivering), a[3]))
+            elif k == "clear":
+                owner.clear_all_subscriptions(All() if a[1] == "all" else a[1])
+                did.append(("clear", [kk for n in (names if a[1] == "all" else [a[1]]) for kk in keys_of(n, "all")], list(delivering), None))
+            elif k == "assign":
+                did.append(("assign", (a[1], "change"), list(delivering), None))
+                setattr(owner, a[1], a[2])
+        finally:
+            delivering.pop()
+
+    for hd in case["uc"]["handlers"]:
+        hid = hd["id"]
+        if hd["kind"] == "f":
+            def f(signal, hid=hid):
+                called(hid, signal)
+            f._hid = hid
+            holders[hid] = f
+            del f
+        else:
+            holders[hid] = (EqListener if hd["eq"] else Listener)(hid)
+    ledger = {}
+    for nm, ty, h in case["uc"]["subs"]:
+        if nm not in names + ["all"]:
+            continue
+        owner.observe(All() if nm == "all" else nm, All() if ty == "all" else ty, get(h))
+        for key in keys_of(nm, ty):
+            ledger.setdefault(key, []).append(h)
+
+    def hid_of(hd):
+        return hd.__self__.hid if hasattr(hd, "__self__") else hd._hid
+
+    def registry():
+        out = {}
+        for nm, per in list(owner.subscribers.items()):
+            for ty, refs in list(per.items()):
+                hs = [hid_of(r()) for r in refs if r() is not None]
+                if hs:
+                    out[(nm, ty)] = hs
+        return out
+
+    def live(key):
+        return [h for h in ledger.get(key, []) if h in holders]
+
+    def signal_op(op, value):
+        if op[0] == "set":
+            setattr(owner, op[1], value)
+            return (op[1], "change")
+        if op[0] == "append":
+            owner.l.append(value)
+            return ("l", "append")
+        owner.l[0] = value
+        return ("l", "replace")
+
+    def plain_round(opi, op, value, what):
+        del calls[:]
+        key = (op[1], "change") if op[0] == "set" else ("l", "append" if op[0] == "append" else "replace")
+        exp = [(h, key) for h in live(key)]
+        try:
+            signal_op(op, value)
+        except Exception as e:  # noqa: BLE001
+            fail("C16/usercode/later-signal-raised", opi, f"{what}: {op} raised {type(e).__name__}: {e}")
+            return
+        if calls != exp:
+            fail("C16/usercode/later-delivery-wrong", opi, f"{what}: the signal {key} was delivered to {[h for h, _ in calls]}, "
+                 f"the live subscribers in subscription order are {[h for h, _ in exp]}")
+        reg = registry()
+        want = {k: live(k) for k in ledger if live(k)}
+        if reg != want:
+            fail("C16/usercode/registry-wrong", opi, f"{what}: after {op} the live registry is {reg}, the history implies {want}")
+            for k in set(reg) | set(want):
+                ledger[k] = list(reg.get(k, []))
+
+    value = 100
+    for opi, rnd in enumerate(case["ops"]):
+        for g in rnd.get("prekill", []):
+            holders.pop(g, None)
+        for kind, nm, ty, h in rnd.get("top", []):
+            hd = get(h)
+            if hd is None:
+                continue
+            getattr(owner, kind)(All() if nm == "all" else nm, All() if ty == "all" else ty, hd)
+            for kk in keys_of(nm, ty):
+                if kind == "observe":
+                    ledger.setdefault(kk, []).append(h)
+                else:
+                    ledger[kk] = [q for q in ledger.get(kk, []) if q != h]
+            del hd
+        armed.clear()
+        for h, a in rnd["acts"].items():
+            if int(h) in holders:
+                armed[int(h)] = a
+        del calls[:]
+        del did[:]
+        op = rnd["op"]
+        key0 = (op[1], "change") if op[0] == "set" else ("l", "append" if op[0] == "append" else "replace")
+        before_live = list(live(key0))
+        value += 1
+        raised = None
+        try:
+            signal_op(op, value)
+        except BaseException as e:  # noqa: BLE001 - the caller catches whatever the handler raised
+            raised = type(e).__name__
+        # ---- bookkeeping of what the handlers did
+        touched = set()
+        nested_same = False
+        for d in did:
+            if d[0] in ("observe", "unobserve", "clear"):
+                _, keys, during, h2 = d
+                for kk in keys:
+                    if kk in during:
+                        touched.add(kk)           # the list that was being delivered: outside the statement, re-synchronised below
+                    elif d[0] == "observe":
+                        ledger.setdefault(kk, []).append(h2)
+                    elif d[0] == "unobserve":
+                        ledger[kk] = [q for q in ledger.get(kk, []) if q != h2]
+                    else:
+                        ledger[kk] = []
+            elif d[0] == "assign":
+                if d[1] in d[2]:
+                    nested_same = True
+        # ---- in the round: a subscriber alive before and after it gets the signal exactly once (unless a handler raised,
+        #      the list itself was re-entered, or the observable was assigned again from inside)
+        if raised is None and key0 not in touched and not nested_same:
+            got = [h for h, k in calls if k == key0]
+            for h in set(before_live):
+                if h in holders and got.count(h) != before_live.count(h):
+                    fail("C16/usercode/in-round-delivery", opi,
+                         f"round {rnd}: subscriber {h} of {key0} is alive before and after the round but was called {got.count(h)} "
+                         f"time(s) (calls {got}, subscribers {before_live})")
+        reg = registry()
+        for kk in touched:
+            ledger[kk] = list(reg.get(kk, []))
+        if nested_same:
+            ledger[key0] = list(reg.get(key0, []))
+        want = {k: live(k) for k in ledger if live(k)}
+        if reg != want:
+            fail("C16/usercode/registry-wrong", opi, f"after round {rnd} (raised: {raised}) the live registry is {reg}, the history implies {want}")
+            for k in set(reg) | set(want):
+                ledger[k] = list(reg.get(k, []))
+        armed.clear()
+        # ---- what happens NEXT: plain signals on every kind of key
+        for j, pop in enumerate([["set", "x"], ["set", "y"], ["append"], ["setitem"]]):
+            value += 1
+            plain_round(opi, pop, value, f"after round {rnd} (raised: {raised})")
+        obs.append([0])
+    return {"obs": obs, "failures": failures, "model": False}
+
+
 def _run_reentrant(case):
     from mesa.experimental.mesa_signals import HasObservables, Observable
 
@@ -1138,6 +1450,8 @@ def _run_reentrant(case):
 def run_impl(case):
     if "hx" in case:
         return _run_hx(case)
+    if "uc" in case:
+        return _run_uc(case)
     if "re" in case:
         return _run_reentrant(case)
     import gc
@@ -1643,6 +1957,8 @@ def _haction(a, t):
 
 
 def coq_case(case):
+    if "uc" in case:
+        return "Plain2 {| c_mro := []; c_vals := []; c_ops := [] |}"
     if "hx" in case:          # oracle-only (never evaluated by the model): a placeholder keeps replay files well formed
         return "Plain2 {| c_mro := []; c_vals := []; c_ops := [] |}"
     if "re" in case and case["re"].get("assign"):
@@ -1728,6 +2044,8 @@ def _coq_plain(case):
 
 
 def op_kinds(case):
+    if "uc" in case:
+        return ["usercode." + "+".join(sorted(a[0] for a in r["acts"].values())) for r in case["ops"]]
     if "hx" in case:
         return ["values." + (op[2] if op[0] == "lop" else op[0]) for op in case["ops"]]
     if "re" in case:
@@ -1744,6 +2062,8 @@ def op_kinds(case):
 
 
 def nontrivial(case):
+    if "uc" in case:
+        return len(case["ops"]) >= 2
     if "hx" in case:
         return len(case["ops"]) >= 3
     if "re" in case:
